@@ -161,7 +161,7 @@ class C12(OptEngineBase):
     PROBES = [
         "early_stop", "stop_at_i1", "hit_max_iter_converged", "hit_max_iter_not_converged", "chi2_increase_seen", "nan_chi2",
         "chi2_exact_zero", "split_ge_3", "clock_backwards", "clock_frozen", "stdout_failed", "clone_after_abort", "clone_checked",
-        "table_parsed", "table_unparsed", "stop_rule_ambiguous", "stdout_none", "str_parsed", "singular_raised_as_error", "called_with_defaults", "interrupted_in_user_code", "nonunit_vertex_quaternion",
+        "table_parsed", "table_unparsed", "stop_rule_ambiguous", "stdout_none", "str_parsed", "singular_raised_as_error", "called_with_defaults", "interrupted_in_user_code", "nonunit_vertex_quaternion", "user_edit_between_calls",
     ]
 
     def generate(self, rng, tier, index):
@@ -187,6 +187,12 @@ class C12(OptEngineBase):
         for k in range(n_calls):
             if rng.random() < 0.2:
                 ops.append({"op": "query"})
+            if k > 0 and rng.random() < 0.12:
+                # between two calls the user re-positions a vertex or toggles a fixed flag; the stepper twin follows
+                if rng.random() < 0.5:
+                    ops.append({"op": "move_vertex", "k": rng.randrange(len(verts)), "delta": [rng.gauss(0, 0.3) for _ in range(6)]})
+                else:
+                    ops.append({"op": "set_fixed", "k": rng.randrange(len(verts)), "value": rng.random() < 0.5})
             small = rng.random() < 0.5
             ops.append({
                 "op": "optimize",
@@ -250,6 +256,21 @@ class C12(OptEngineBase):
                         c = A.calc_chi2()
                     log.note("query", repr(float(c)))
                     sig_ops.append("query")
+                    continue
+                if op["op"] in ("move_vertex", "set_fixed"):
+                    for G in ([A] if dry else [A, B]):
+                        v = G._vertices[op["k"] % len(G._vertices)]
+                        if op["op"] == "set_fixed":
+                            v.fixed = bool(op["value"])
+                        else:
+                            d = np.array(op["delta"][: v.pose.COMPACT_DIMENSIONALITY], dtype=np.float64)
+                            if v.pose.COMPACT_DIMENSIONALITY == 6:
+                                d[3:] *= 0.3
+                            v.pose = v.pose + d
+                    if not dry:
+                        res.probe("user_edit_between_calls")
+                    log.note(op["op"], op["k"])
+                    sig_ops.append(op["op"])
                     continue
                 n_opt += 1
                 kw = {"tol": op["tol"], "max_iter": op["max_iter"], "fix_first_pose": op["fix_first_pose"]}
